@@ -1,1 +1,19 @@
-fn main() {}
+//! C06 — elliptic-curve gadgets compute the group law and accept nothing else.
+
+mod ops;
+mod refs;
+
+use ops::*;
+use refs::*;
+use vgad::OpCase;
+
+fn main() {
+    // bring-up probe
+    let g = RP::generator(Cv::Jub);
+    let c = Case { cv: Cv::Jub, op: Op::Double, ins: vec![V::Pt(P { label: "G".into(), rp: g })] };
+    let t = std::time::Instant::now();
+    let k = vgad::min_k(&c);
+    println!("k={k:?} {:?}", t.elapsed());
+    let r = vgad::run_once(&c, k.unwrap(), vec![], false);
+    println!("{:?} n={} {:?} judge={:?}", r.outcome, r.n_assign, t.elapsed(), c.judge(&r.ins, &r.outs));
+}
